@@ -24,7 +24,8 @@ package main
 //	["sample", kind, seed] -> [0, bytes...] valid deterministic blob of an opaque type
 //	["odec", name, hex]    -> [class, consumed] of the opaque decoder alone
 //
-// "codec_hostile": ops ["de", T, hex] run in a child process under an address-space limit:
+// "codec_hostile": ops ["de", T, hex] run in a child process whose address space may grow by at most
+// cfg aslimit_mb (default 2048) MiB; cfg timeout_ms (default 10000) per input:
 // [class, consumed, totalalloc_delta] | [3,0,-1] child died | [4,0,-1] timeout.
 
 import (
@@ -674,7 +675,11 @@ func cdTreeOf(val any) any {
 	if val == nil {
 		return nil
 	}
-	return cdToTree(reflect.ValueOf(val))
+	v := reflect.ValueOf(val)
+	if v.Kind() == reflect.Ptr && !v.IsNil() {
+		v = v.Elem() // the top level is never an optional
+	}
+	return cdToTree(v)
 }
 
 // cdOpStream decodes messages from one reader until it is empty or an attempt fails.  consumed is
@@ -900,19 +905,28 @@ func cdSample(kind string, seed int64) []byte {
 // ------------------------------------------------------------------------------------------------
 // codec_hostile: decode in a child process that may be killed
 
-// cdChildMain is the child loop: stdin lines "T hex" -> fd 3 lines "class consumed totalalloc_delta".
+// cdChildMain is the child loop: after the line "ready" on fd 3, stdin lines "T hex" -> fd 3 lines
+// "class consumed totalalloc_delta".
 // (fd 3 rather than stdout, because the code under test may log to stdout/stderr.)
 func cdChildMain() {
 	mb, _ := strconv.ParseUint(os.Getenv("VERIF_CODEC_ASLIMIT_MB"), 10, 64)
 	if mb == 0 {
 		mb = 2048
 	}
-	lim := syscall.Rlimit{Cur: mb << 20, Max: mb << 20}
+	// The Go runtime has already reserved about 1.2 GiB of address space that it never touches, so
+	// the limit is set to the current size of the address space plus aslimit_mb of headroom.
+	var pages uint64
+	if b, err := os.ReadFile("/proc/self/statm"); err == nil {
+		fmt.Sscanf(string(b), "%d", &pages)
+	}
+	lim := syscall.Rlimit{Cur: pages*uint64(os.Getpagesize()) + mb<<20}
+	lim.Max = lim.Cur
 	if err := syscall.Setrlimit(syscall.RLIMIT_AS, &lim); err != nil {
 		fmt.Fprintln(os.Stderr, "fatal error: setrlimit:", err)
 		os.Exit(3)
 	}
 	out := os.NewFile(3, "answers")
+	fmt.Fprintln(out, "ready")
 	in := bufio.NewReaderSize(os.Stdin, 1<<16)
 	var m0, m1 runtime.MemStats
 	for {
@@ -1010,7 +1024,15 @@ func cdStartChild(aslimitMB int64) *cdChild {
 			ch.lines <- l
 		}
 	}()
-	return ch
+	// the child announces itself once its limit is set, so that timeouts measure decoding only
+	select {
+	case l := <-ch.lines:
+		if l == "ready\n" {
+			return ch
+		}
+	case <-time.After(60 * time.Second):
+	}
+	panic(harnessErr("codec_hostile: child did not start: " + ch.stop()))
 }
 
 // stop kills (if still running) and reaps the child; returns why it ended.
@@ -1041,7 +1063,7 @@ func (ch *cdChild) ask(name, hexIn string, timeout time.Duration) (obs Obs, aliv
 	}
 }
 
-// runCodecHostile: cfg aslimit_mb (default 2048), timeout_ms (default 10000).  extra entry per op:
+// runCodecHostile: cfg aslimit_mb (default 2048, headroom), timeout_ms (default 10000).  extra entry per op:
 // null, or a string describing how the child ended (class 3 / 4).
 func runCodecHostile(c *Case) ([]Obs, any) {
 	aslimit := cfgInt(c, "aslimit_mb", 2048)
@@ -1068,6 +1090,10 @@ func runCodecHostile(c *Case) ([]Obs, any) {
 		var ex any
 		if !alive {
 			ex = child.stop()
+			child = nil
+		} else if obs[2] > 64<<20 {
+			// address space is never given back: do not let one big allocation starve later inputs
+			child.stop()
 			child = nil
 		}
 		result = append(result, obs)
